@@ -126,7 +126,8 @@ type kind struct {
 	// alphabet: the sequential alphabet; collide: the smaller alphabet of the concurrent part
 	// (all on one key plus a little spill); observe: loads that together reveal the whole state.
 	alphabet []op
-	core     []op // reduced alphabet (used for the longest sequences); nil: same as alphabet
+	core     []op // reduced alphabet (quick tier); nil: same as alphabet
+	mini     []op // smallest alphabet (length-5 sequences of the thorough tier); nil: same as core
 	collide  []op
 	observe  []op
 	init     func() mstate
@@ -143,7 +144,10 @@ var kinds = map[string]*kind{}
 var kindOrder = []string{"action", "round", "finalization", "committed", "mirror", "statemachine", "validator"}
 
 func (k *kind) alpha(name string) []op {
-	if name == "core" && k.core != nil {
+	if name == "mini" && k.mini != nil {
+		return k.mini
+	}
+	if (name == "core" || name == "mini") && k.core != nil {
 		return k.core
 	}
 	return k.alphabet
@@ -259,6 +263,10 @@ func init() {
 	k.core = mustOps("SPH:0,0", "SPH:0,1", "SPH:1,0", "SPH:1,1", "SPH:2,0",
 		"SPV:0,0,0", "SPV:0,0,1", "SPV:0,1,0", "SPV:0,1,1", "SPV:1,0,0", "SPV:1,0,1", "SPV:1,1,0", "SPV:1,1,1", "SPV:2,0,0",
 		"SPC:0,0,0", "SPC:0,0,1", "SPC:0,1,0", "SPC:0,1,1", "SPC:1,0,0", "SPC:1,0,1", "SPC:1,1,0", "SPC:1,1,1", "SPC:2,0,0",
+		"LA:0", "LA:1", "LA:2")
+	k.mini = mustOps("SPH:0,0", "SPH:0,1", "SPH:1,0", "SPH:2,0",
+		"SPV:0,0,0", "SPV:0,0,1", "SPV:0,1,0", "SPV:0,1,1", "SPV:1,0,0", "SPV:2,0,0",
+		"SPC:0,0,0", "SPC:0,0,1", "SPC:0,1,0", "SPC:0,1,1", "SPC:1,0,0",
 		"LA:0", "LA:1", "LA:2")
 	k.collide = []op{
 		mkop("SPH", 0, 0), mkop("SPH", 0, 1),
@@ -405,6 +413,11 @@ func init() {
 		"SRH:0,0", "SRH:0,1", "SRH:1,0", "SRH:1,1",
 		"OPV:0,0", "OPV:0,2", "OPV:1,0", "OPV:1,2",
 		"OPC:0,0", "OPC:0,1", "OPC:0,2", "OPC:1,0", "OPC:1,1", "OPC:1,2", "OPC:2,0",
+		"LRS:0", "LRS:1", "LRS:2")
+	k.mini = mustOps("SPH:0,0,0", "SPH:0,0,1", "SPH:0,1,0", "SPH:1,0,0", "SPH:2,0,0",
+		"SRH:0,0", "SRH:0,1", "SRH:1,0",
+		"OPV:0,0", "OPV:0,2",
+		"OPC:0,0", "OPC:0,1", "OPC:0,2", "OPC:1,0", "OPC:2,0",
 		"LRS:0", "LRS:1", "LRS:2")
 	k.collide = []op{
 		mkop("SPH", 0, 0, 0), mkop("SPH", 0, 0, 1),
@@ -808,6 +821,8 @@ func init() {
 	k.alphabet = append(k.alphabet, cross("LV", 4, 4)...)
 	k.core = append(append(append(append(cross("SPK", 3), cross("SVP", 3)...), cross("LPK", 4)...), cross("LVP", 4)...),
 		mustOps("LV:0,0", "LV:0,2", "LV:0,3", "LV:2,0", "LV:2,2", "LV:2,3", "LV:3,0", "LV:3,2", "LV:3,3")...)
+	k.mini = mustOps("SPK:0", "SPK:1", "SPK:2", "SVP:0", "SVP:1", "SVP:2", "LPK:0", "LPK:1", "LPK:3", "LVP:0", "LVP:2", "LVP:3",
+		"LV:0,0", "LV:0,2", "LV:1,0", "LV:3,3")
 	k.collide = []op{mkop("SPK", 0), mkop("SPK", 1), mkop("SVP", 0), mkop("SVP", 2), mkop("LPK", 0), mkop("LVP", 0), mkop("LV", 0, 0), mkop("LV", 0, 2)}
 	k.observe = append(cross("LPK", 4), cross("LVP", 4)...)
 	k.init = func() mstate { return valState{} }
